@@ -21,6 +21,9 @@ Check(m, e) ==
          IF e.begun /\ k < m.w - 1 THEN "scheduled_thing_not_early"
          ELSE IF ~e.begun /\ k >= m.w THEN "scheduled_thing_not_late"
          ELSE ""
+    \* a session of the "pickup" family (PickUpOrder.tla): clock and sound were created while the audio thread was between two
+    \* drains of its rings of new resources; five callbacks later the sound must have begun and must not have been cancelled
+    [] e.a = "pk" -> IF e.stopped \/ ~e.heard THEN "scheduled_sound_survives_its_pick_up" ELSE ""
     [] e.a = "panic" -> "no_panic"
     [] OTHER -> ""
 
